@@ -76,7 +76,15 @@ struct Prettifier<'a, W> {
     )>,
     lists: BTreeMap<&'a SimpleTerm<'a>, Vec<&'a SimpleTerm<'a>>>,
     graph_range: Range<usize>,
+    /// current nesting of property lists (`[ ... ]` and `{| ... |}`)
+    depth: usize,
 }
+
+/// Blank nodes are not nested in square brackets deeper than this:
+/// a longer chain is cut, the next node gets a label and is written on its own,
+/// so that the stack used by this serializer (and by the parsers of its output)
+/// does not grow with the length of blank node chains.
+const MAX_DEPTH: usize = 64;
 
 type SubjectsWithType<'a> = [(
     GraphName<&'a SimpleTerm<'a>>,
@@ -115,6 +123,7 @@ impl<'a, W: Write> Prettifier<'a, W> {
             subject_types,
             lists,
             graph_range,
+            depth: 0,
         }
     }
 
@@ -145,13 +154,19 @@ impl<'a, W: Write> Prettifier<'a, W> {
     /// all its elements have the same graph name,
     /// and all subjects of that graph are contained in it.
     fn write_graph(&mut self) -> io::Result<()> {
-        for i in self.graph_range.clone() {
-            let (_, s, st) = &self.subject_types[i];
-            if *st != SubjectType::Root {
-                continue;
+        // writing a root may turn deeply nested subtrees into new roots (see MAX_DEPTH)
+        let mut again = true;
+        while again {
+            again = false;
+            for i in self.graph_range.clone() {
+                let (_, s, st) = &self.subject_types[i];
+                if *st != SubjectType::Root {
+                    continue;
+                }
+                self.write_tree(s)?;
+                self.subject_types[i].2 = SubjectType::Done;
+                again = true;
             }
-            self.write_tree(s)?;
-            self.subject_types[i].2 = SubjectType::Done;
         }
         /*
         // some blank node cycles can cause all of them to be SubTree;
@@ -179,6 +194,7 @@ impl<'a, W: Write> Prettifier<'a, W> {
 
     fn write_properties(&mut self, subject: &'a SimpleTerm<'a>) -> io::Result<()> {
         let mut predicate = None;
+        self.depth += 1;
         self.indent(); // to predicate-level
         let g = self.current_graph_name();
         let types: Vec<_> = self
@@ -228,6 +244,7 @@ impl<'a, W: Write> Prettifier<'a, W> {
             self.unindent(); // back to predicate-level
         }
         self.unindent(); // back to original level
+        self.depth -= 1;
         Ok(())
     }
 
@@ -341,6 +358,12 @@ impl<'a, W: Write> Prettifier<'a, W> {
         } else if let Some(i) = self.find_st_index(bn) {
             let (_, s, st) = self.subject_types[i];
             match st {
+                SubjectType::SubTree if self.depth >= MAX_DEPTH => {
+                    // too deep: refer to the node by its label, and make it a root
+                    self.labelled.insert(bn);
+                    self.subject_types[i].2 = SubjectType::Root;
+                    write!(self.write, "_:{}", bn.bnode_id().unwrap().as_str())?;
+                }
                 SubjectType::SubTree => {
                     self.write_bytes(b"[")?;
                     self.write_properties(s)?;
